@@ -317,7 +317,7 @@ where
             dealloc(get_tls_ptr().cast(), Layout::new::<ThreadLocalStorage>());
         }
     };
-    let (start_fn, fn_caller) = unsafe { onwed_split_fn_once(df) };
+    let (start_fn, fn_caller, drop_fn_caller) = unsafe { onwed_split_fn_once(df) };
     // We need to double box here because
     // 1. We need to access through a box, because we can't cast into a *mut dyn FnOnce(), because
     // fat pointer.
@@ -325,7 +325,7 @@ where
     // it after this part of the stack is destroyed/overwritten/whatever.
 
     let map_ptr = unsafe {
-        mmap(
+        match mmap(
             None,
             NonZeroUsize::new_unchecked(size),
             MemoryProtection::PROT_READ | MemoryProtection::PROT_WRITE,
@@ -333,7 +333,15 @@ where
             MapAdditionalFlags::MAP_ANONYMOUS,
             None,
             0,
-        )?
+        ) {
+            Ok(map_ptr) => map_ptr,
+            Err(e) => {
+                // No thread will run, release what was set up for it
+                drop_fn_caller(fn_caller);
+                tsm.dealloc();
+                return Err(e.into());
+            }
+        }
     };
     // Stack grows downward
     let mut stack = map_ptr + size;
@@ -357,7 +365,7 @@ where
         (*tls).self_addr = tls as usize;
     }
     #[expect(clippy::cast_possible_truncation)]
-    unsafe {
+    let clone_res = unsafe {
         __clone(
             start_fn,
             stack,
@@ -367,7 +375,20 @@ where
             tsm.get_futex().as_ptr() as usize,
             map_ptr,
             stack_sz,
-        );
+        )
+    };
+    if clone_res < 0 {
+        // No thread was created, nobody will ever wake a joiner: release everything and report it
+        unsafe {
+            drop(Box::from_raw(tls));
+            drop_fn_caller(fn_caller);
+            let _ = rusl::unistd::munmap(map_ptr, NonZeroUsize::new_unchecked(size));
+            tsm.dealloc();
+        }
+        return Err(crate::error::Error::os(
+            "`CLONE` syscall failed",
+            rusl::error::Errno::new(-clone_res),
+        ));
     }
     Ok(JoinHandle {
         tsm,
@@ -376,10 +397,15 @@ where
 }
 
 #[inline]
-unsafe fn onwed_split_fn_once<F: FnOnce()>(f: F) -> (usize, usize) {
+unsafe fn onwed_split_fn_once<F: FnOnce()>(f: F) -> (usize, usize, unsafe fn(usize)) {
     let t = start_fn::<F>;
     let d = Box::into_raw(Box::new(f));
-    (t as usize, d as usize)
+    (t as usize, d as usize, drop_fn_once::<F>)
+}
+
+/// Drops a closure boxed by `onwed_split_fn_once` that will never be run
+unsafe fn drop_fn_once<F: FnOnce()>(ptr: usize) {
+    drop(Box::from_raw(ptr as *mut F));
 }
 
 #[repr(C)]
